@@ -77,7 +77,10 @@ class BusProtocol (txdbus.protocol.BasicDBusProtocol):
                     return
 
             else:
+                # nothing but Hello is accepted from a connection that has
+                # not said Hello yet
                 self.transport.loseConnection()
+                return
 
         msg.sender = self.uniqueName
 
